@@ -481,7 +481,7 @@ pub fn c01(ctx: &mut Ctx) {
     let bases = bytes::base_images();
     // In the unoptimised second build (see `unoptimised_build_pass`) only the spaces whose inputs are long - where
     // the depth of a recursion or the size of a frame matters - and the cheap ones are run.
-    let child = is_frames_child();
+    let child = super::common::is_frames_child();
     let run = |ctx: &mut Ctx, sp: ByteSpace, mode: Mode, pairs: bool| {
         if child && sp.len > 1_000_000 {
             return;
@@ -542,78 +542,7 @@ pub fn c01(ctx: &mut Ctx) {
     ctx.require_hit("accepted by at least one entry point");
     ctx.require_hit("rejected by every entry point");
     if !child {
-        unoptimised_build_pass(ctx);
+        super::common::unoptimised_build_pass(ctx, "the spaces of at most 1e6 cases (truncations/extensions, one-byte substitutions, accessor pairs, raw FCI bodies, S6, S6b, long chains, iterator histories)");
     }
 }
 
-pub fn is_frames_child() -> bool {
-    std::env::var("VERIF_FRAMES_CHILD").map(|v| v == "1").unwrap_or(false)
-}
-
-/// The long inputs again, in a child process running the `frames` build of this same harness, in which the subject
-/// is compiled without optimisation: there every call keeps its frame, so a recursion whose depth grows with the
-/// input (one that the optimiser turns into a loop in the release build) runs out of stack as it would in a user's
-/// debug build. A stack overflow is not a panic: the child's SIGABRT handler and watchdog turn it into a replay
-/// file and a VIOLATION line, which are relayed here as a violation of this check.
-fn unoptimised_build_pass(ctx: &mut Ctx) {
-    const NAME: &str = "unoptimised-build-child";
-    if let Some((rs, _)) = &ctx.replay {
-        if rs != NAME {
-            return;
-        }
-    }
-    let bin = match std::env::var("VERIF_FRAMES_BIN") {
-        Ok(b) if !b.is_empty() => std::path::PathBuf::from(b),
-        _ => {
-            // next to this binary: <target>/release/rtcp-mc -> <target>/frames/rtcp-mc
-            let me = std::env::current_exe().unwrap_or_else(|e| crate::engine::run::machinery_failure(&format!("current_exe: {}", e)));
-            me.parent().and_then(|p| p.parent()).map(|p| p.join("frames").join("rtcp-mc")).unwrap_or_default()
-        }
-    };
-    if !bin.is_file() {
-        crate::engine::run::machinery_failure(&format!("the unoptimised build of the harness is missing ({}); ./check builds it (cargo build --profile frames)", bin.display()));
-    }
-    let vd = std::env::var("VERIF_DIR").unwrap_or_else(|_| ".".into());
-    let child_dir = format!("{}/out/frames-child", vd);
-    let _ = std::fs::create_dir_all(&child_dir);
-    let t0 = std::time::Instant::now();
-    let out = std::process::Command::new(&bin)
-        .arg("C01")
-        .arg(ctx.tier.name())
-        .env("VERIF_FRAMES_CHILD", "1")
-        .env("VERIF_DIR", &child_dir)
-        .env_remove("VERIF_STRICT_VACUITY")
-        .output()
-        .unwrap_or_else(|e| crate::engine::run::machinery_failure(&format!("cannot run {}: {}", bin.display(), e)));
-    let wall = t0.elapsed().as_secs_f64();
-    let stdout = String::from_utf8_lossy(&out.stdout).to_string();
-    let stderr = String::from_utf8_lossy(&out.stderr).to_string();
-    let summary = stdout.lines().find(|l| l.starts_with("C01 ")).unwrap_or("").to_string();
-    let code = out.status.code();
-    let mut l = Local::new(ctx.bitmap.clone(), ctx.seed, ctx.tier, ctx.replay.is_some());
-    l.cur_space = NAME.to_string();
-    l.cur_idx = 0;
-    l.evals += 1;
-    l.states += 1;
-    l.transitions += 1;
-    l.validated += 1;
-    match code {
-        Some(0) => {
-            l.hit("unoptimised build: the long inputs ran to completion");
-            ctx.bound("unoptimised build", format!("the spaces of at most 1e6 cases (truncations/extensions, one-byte substitutions, accessor pairs, raw FCI bodies, S6, S6b, long chains, iterator histories) were run a second time in a child process built with the subject at opt-level 0 (no tail-call elimination, 2 MiB worker stacks): exit 0, {}", summary));
-        }
-        Some(1) => {
-            let keys: Vec<String> = stdout.lines().filter_map(|x| x.trim().strip_prefix("key=")).map(|x| x.split_whitespace().next().unwrap_or("").to_string()).collect();
-            let key = format!("unoptimised-build:{}", keys.first().cloned().unwrap_or_else(|| "violation".into()));
-            let lines: Vec<&str> = stdout.lines().filter(|x| x.starts_with("VIOLATION") || x.starts_with("  ")).filter(|x| !x.starts_with("  space ")).take(12).collect();
-            let tail: String = stderr.lines().rev().take(6).collect::<Vec<_>>().into_iter().rev().collect::<Vec<_>>().join(" | ");
-            l.violation(key, || format!("child process {} C01 {} (subject at opt-level 0)", bin.display(), ctx.tier.name()), || format!("{} || stderr: {}", lines.join(" | "), tail));
-        }
-        other => {
-            let tail: String = stderr.lines().rev().take(8).collect::<Vec<_>>().into_iter().rev().collect::<Vec<_>>().join(" | ");
-            crate::engine::run::machinery_failure(&format!("the unoptimised-build child ended with status {:?}: {}", other, tail));
-        }
-    }
-    ctx.total.merge_from(l);
-    ctx.spaces.push(crate::engine::run::SpaceReport { name: NAME.to_string(), len: 1, done: 1, wall_s: wall });
-}
